@@ -18,6 +18,8 @@ mod c07;
 mod c08;
 mod c10;
 mod c12;
+mod c16;
+mod swz_calls;
 mod c17;
 mod c18;
 mod c19;
@@ -46,6 +48,7 @@ fn main() {
         "C07" => { c07::cases(&mut ctx); c07::preds(&mut ctx); }
         "C08" => { c08::cases(&mut ctx); c08::preds(&mut ctx); }
         "C10" => { c10::cases(&mut ctx); c10::preds(&mut ctx); }
+        "C16" => { c16::cases(&mut ctx); c16::preds(&mut ctx); }
         "C17" => { c17::cases(&mut ctx); c17::preds(&mut ctx); }
         "C18" => { c18::cases(&mut ctx); c18::preds(&mut ctx); }
         "C19" => { c19::cases(&mut ctx); c19::preds(&mut ctx); }
